@@ -296,6 +296,15 @@ class Gen:
         kind = r.choice(kinds)
         if th.state == UNKNOWN:
             kind = "state"
+            # now and then something happens before the thread's first state event:
+            # a flush of the buffer (ovni_flush() before OHx) or a kernel context switch
+            if th.out_of_cpu:
+                return self.emit(th.key, "KCI", b"")
+            if r.random() < 0.15:
+                if "K" in self.enabled and r.random() < 0.5:
+                    return self.emit(th.key, "KCO", b"")
+                cur = th.ch[("O", "flush")]
+                return self.emit(th.key, "OF]" if cur else "OF[", b"")
         p = getattr(self, "prop_" + kind)(th)
         if p is None:
             return False
